@@ -507,11 +507,11 @@ func verif_inv_DHCP4_AppendOptions_1(options DHCP4Options, pos int, buffer []byt
 
 //verif:props C03 C07 C08
 func verif_contract_DHCP4_AppendOptions(p DHCP4, options DHCP4Options, order []byte) int {
-	vRequires(VerifSpecOptionsSmall(options) && len(order) <= 32 && cap(p) >= 240)
+	vRequires(VerifSpecOptionsSmall(options) && len(order) <= 255 && cap(p) >= 240)
 	vCanary()
 	vModifiesBytes(p[240:cap(p)])
 	vModifiesBytes(order[:cap(order)]) // append(order, ...) writes into the caller's spare capacity
-	vModifiesMems("map[github.com/irai/packet.DHCP4OptionCode]")
+	vModifiesMap(options)              // options copied in order are deleted from the map
 	n := p.AppendOptions(options, order)
 	vEnsures(0 <= n && n <= 680)
 	return n
@@ -532,7 +532,7 @@ func verif_frame_EncodeDHCP4_1(p DHCP4) []byte { return p[240:] }
 //verif:props C03 C07 C08
 //verif:timeout 60s
 func verif_contract_EncodeDHCP4(b []byte, opcode DHCP4OpCode, mt DHCP4MessageType, chaddr net.HardwareAddr, ciaddr netip.Addr, yiaddr netip.Addr, xid []byte, broadcast bool, options DHCP4Options, order []byte) DHCP4 {
-	vRequires(len(order) <= 32)
+	vRequires(len(order) <= 255) // (a parameter request list is the value of one option)
 	// order (typically the parameter request list of the request being answered in place)
 	// may live in b itself, but then behind the fixed header: append() writes into its spare capacity
 	vRequires(order == nil || !vSameRegion(order, b) || vOffset(order, b) >= 240)
@@ -540,28 +540,28 @@ func verif_contract_EncodeDHCP4(b []byte, opcode DHCP4OpCode, mt DHCP4MessageTyp
 	vCanary()
 	vModifiesBytes(b[:cap(b)])
 	vModifiesBytes(order[:cap(order)])
-	vModifiesMems("map[github.com/irai/packet.DHCP4OptionCode]")
+	vModifiesMap(options) // gains the message type, loses what was copied in order; no other map is touched
 	r := EncodeDHCP4(b, opcode, mt, chaddr, ciaddr, yiaddr, xid, broadcast, options, order)
+	if r != nil {
+		// (stated first: the region and offset of the result are then known for what follows)
+		vEnsures(vSameRegion(r, b) && vOffset(r, b) == 0 && 300 <= len(r) && len(r) <= 921 && len(r) <= cap(b))
+		vEnsures(r[0] == byte(opcode) && r[1] == 1 && r[3] == 0)
+		vEnsures(chaddr != nil || r[2] == 6)
+		vEnsures(r[236] == 99 && r[237] == 130 && r[238] == 83 && r[239] == 99)
+		vEnsures(spec_be16(r, 8) == 0)
+		vEnsures((r[10]&0x80 != 0) == broadcast)
+		if yiaddr.Is4() {
+			vEnsures(spec_ip4_at(r, 16) == yiaddr)
+		}
+		if ciaddr.Is4() {
+			vEnsures(spec_ip4_at(r, 12) == ciaddr)
+		}
+	}
 	if cap(b) < 300 {
 		vEnsures(r == nil)
 	}
 	if cap(b) >= 922 {
 		vEnsures(r != nil) // room for every options set within VerifSpecOptionsSmall
-	}
-	if r == nil {
-		return r
-	}
-	vEnsures(vSameRegion(r, b) && vOffset(r, b) == 0 && 300 <= len(r) && len(r) <= 921 && len(r) <= cap(b))
-	vEnsures(r[0] == byte(opcode) && r[1] == 1 && r[3] == 0)
-	vEnsures(chaddr != nil || r[2] == 6)
-	vEnsures(r[236] == 99 && r[237] == 130 && r[238] == 83 && r[239] == 99)
-	vEnsures(spec_be16(r, 8) == 0)
-	vEnsures((r[10]&0x80 != 0) == broadcast)
-	if yiaddr.Is4() {
-		vEnsures(spec_ip4_at(r, 16) == yiaddr)
-	}
-	if ciaddr.Is4() {
-		vEnsures(spec_ip4_at(r, 12) == ciaddr)
 	}
 	return r
 }
